@@ -273,6 +273,55 @@ func runTuple(t tuple) {
 	r.Distinct("ok|" + t.String())
 }
 
+// sharedDeployment: ONE manufacturer, rendezvous and owner service, living as long as a deployment does, onboards a
+// device of every key type one after the other (both orders, twice round): what a server keeps from one session
+// (caches, lazily built tables) must not make a later, differently configured session fail.
+func sharedDeployment() {
+	ctx := context.Background()
+	for _, enc := range []protocol.KeyEncoding{protocol.X509KeyEnc, protocol.X5ChainKeyEnc} {
+		w := lab.NewWorld(keys.Kinds[0], enc)
+		order := append([]keys.Kind{}, keys.Kinds...)
+		for i := len(keys.Kinds) - 1; i >= 0; i-- {
+			order = append(order, keys.Kinds[i])
+		}
+		order = append(order, keys.Kinds...)
+		for i, k := range order {
+			r.Evaluations.Add(1)
+			id := fmt.Sprintf("shared deployment enc%d, session %d of %d: %s", enc, i+1, len(order), k.Name)
+			repl := map[string]any{"layer": "shared-deployment", "enc": int(enc), "session": i, "kind": k.Name}
+			d := lab.NewDevice(k, enc, []string{"device", "device2", "stranger"}[i%3])
+			if err := d.DI(ctx, lab.NewWire(w.Mfg).Transport()); err != nil {
+				r.Violation("valid-config-fails:shared:DI:"+k.Name, id+": "+err.Error(), repl)
+				continue
+			}
+			if _, err := lab.Transfer(ctx, w.Mfg, w.Owner, k, d.Cred.GUID); err != nil {
+				r.Violation("valid-config-fails:shared:extend:"+k.Name, id+": "+err.Error(), repl)
+				continue
+			}
+			c := &fdo.TO0Client{Vouchers: w.Owner.State, OwnerKeys: w.Owner.State}
+			if _, err := c.RegisterBlob(ctx, lab.NewWire(w.RV).Transport(), d.Cred.GUID, lab.DefaultAddrs()); err != nil {
+				r.Violation("valid-config-fails:shared:TO0:"+k.Name, id+": "+err.Error(), repl)
+				continue
+			}
+			to1d, err := d.TO1(ctx, lab.NewWire(w.RV).Transport())
+			if err != nil {
+				r.Violation("valid-config-fails:shared:TO1:"+k.Name, id+": "+err.Error(), repl)
+				continue
+			}
+			cred, err := fdo.TO2(ctx, lab.NewWire(w.Owner).Transport(), to1d, d.TO2Config(lab.DefaultSuite(k), kex.A128GcmCipher))
+			if err != nil || cred == nil {
+				r.Violation("valid-config-fails:shared:TO2:"+k.Name, fmt.Sprintf("%s: err=%v credential=%v (the same device onboards against servers of its own)", id, err, cred != nil), repl)
+				continue
+			}
+			nv, _ := w.Owner.Mem.VoucherBytes(cred.GUID)
+			if msg := lab.Agree(cred, d, nv); msg != "" {
+				r.Violation("credential-voucher-disagree:"+k.Name, id+": "+msg, repl)
+			}
+			r.Distinct(fmt.Sprintf("shared|%d|%d|%s", enc, i, k.Name))
+		}
+	}
+}
+
 func main() {
 	r = ev.Start("C09", "exploration")
 	var all []tuple
@@ -352,7 +401,7 @@ func main() {
 	r.Set("opaque_owner_key_tuples", nOpaque)
 	r.Set("product_size", len(all))
 	r.Set("tuples_run", len(sel))
-	r.Rule(fmt.Sprintf("the product {6 key types} x {X509, X5Chain, COSE(EC only)} x {6 key exchanges} x {7 cipher suites} x {reuse, replace} x {via TO0/TO1, rendezvous bypass} has %d tuples; both tiers run all of them. Each tuple runs DI, extension, [TO0, TO1], TO2 (credential through its blob encoding), resale to a second owner and a second TO2 over the real HTTP transport and handler. Valid tuples (reference rule: RSA attestation keys allow every key exchange, P-256 only ECDH256, P-384 only ECDH384) must complete every step, credential and stored voucher must agree (header MAC, key hash, GUID, rendezvous info, certificate hash), every body from SetupDevice on must be a COSE_Encrypt0 / COSE_Mac0 carrying the configured cipher's algorithm id; plus every key type x every non-asymmetric key exchange with the owner keys handed out as opaque crypto.Signer values; plus 48 tuples with keys whose public point has a leading zero byte in X or Y (all three encodings); plus, for every cipher suite, 15 runs with the service-info plaintext lengths shifted by 1..15 bytes (block alignment); invalid tuples must fail on the device, produce no SetupDevice and leave the voucher untouched; the HelloDevice on the wire must name the configured suites. distinct = tuples with distinct outcome.", len(all)))
+	r.Rule(fmt.Sprintf("the product {6 key types} x {X509, X5Chain, COSE(EC only)} x {6 key exchanges} x {7 cipher suites} x {reuse, replace} x {via TO0/TO1, rendezvous bypass} has %d tuples; both tiers run all of them. Each tuple runs DI, extension, [TO0, TO1], TO2 (credential through its blob encoding), resale to a second owner and a second TO2 over the real HTTP transport and handler. Valid tuples (reference rule: RSA attestation keys allow every key exchange, P-256 only ECDH256, P-384 only ECDH384) must complete every step, credential and stored voucher must agree (header MAC, key hash, GUID, rendezvous info, certificate hash), every body from SetupDevice on must be a COSE_Encrypt0 / COSE_Mac0 carrying the configured cipher's algorithm id; plus every key type x every non-asymmetric key exchange with the owner keys handed out as opaque crypto.Signer values; plus one long-lived deployment per key encoding onboarding a device of every key type in turn (there and back, twice round) through the same services; plus 48 tuples with keys whose public point has a leading zero byte in X or Y (all three encodings); plus, for every cipher suite, 15 runs with the service-info plaintext lengths shifted by 1..15 bytes (block alignment); invalid tuples must fail on the device, produce no SetupDevice and leave the voucher untouched; the HelloDevice on the wire must name the configured suites. distinct = tuples with distinct outcome.", len(all)))
 	var wg sync.WaitGroup
 	sem := make(chan struct{}, 16)
 	for _, t := range sel {
@@ -388,6 +437,7 @@ func main() {
 		}()
 	}
 	wg.Wait()
+	sharedDeployment()
 	r.Sample(3, map[string]any{"tuple": sel[0].String()})
 	r.Sample(3, map[string]any{"tuple": sel[len(sel)/2].String()})
 	r.Assume("manufacturer, owner and device keys are of the same key type within a tuple; keys come from the cached key ring")
